@@ -105,10 +105,15 @@ type Options struct {
 
 // ApplyForURL runs distiller for the specified URL.
 func ApplyForURL(url string, timeout time.Duration, opts *Options) (*Result, error) {
-	// Make sure URL absolute
-	parsedURL, err := nurl.ParseRequestURI(url)
+	// Make sure URL absolute. The URL is parsed the same way the HTTP client
+	// does it, so a #fragment is kept as fragment and not as part of the path.
+	parsedURL, err := nurl.Parse(url)
 	if err != nil {
 		return nil, err
+	}
+
+	if !parsedURL.IsAbs() || parsedURL.Host == "" {
+		return nil, fmt.Errorf("URL is not absolute: %q", url)
 	}
 
 	// Fetch page from URL
